@@ -9,7 +9,7 @@ from vf.runner import Acc
 ID = "C19"
 LEVEL = "exploration"
 TECHNIQUE = "complete enumeration of the 4 binding-presence combinations (one fresh interpreter each) x every module import x every command class x every device-string/mode/initiator call of the three factories, file opens observed by a sys.addaudithook recorder and connections by the stand-in Context"
-RULE = ("4 presence combinations of (sgio, iscsi) x 4 orders of the factory calls (as listed, reversed, explicit-names-first, interleaved), each in its own subprocess: import of every module under pyscsi; construction + CDB encode/decode "
+RULE = ("9 combinations of {not installed, present, installed but unloadable (import raises a plain ImportError)} for (sgio, iscsi) x 4 orders of the factory calls (as listed, reversed, explicit-names-first, interleaved), each in its own subprocess: import of every module under pyscsi; construction + CDB encode/decode "
         "of each of the 42 command classes; the facade over a plain recording object; init_device / SCSIDevice / ISCSIDevice x 25 device strings "
         "(existing node, directories, absent node, seven well-formed iSCSI URLs incl. user%password@ credentials, IPv6 portal and mixed case, near-miss prefixes in both families, empty, relative, upper-case) x "
         "read-only/read-write x explicit/default initiator name. Non-trivial = at least one binding missing or a device string that is not the "
@@ -23,7 +23,8 @@ SERIAL = False
 
 
 def partitions(tier):
-    return [[s, i, o] for s in (0, 1) for i in (0, 1) for o in range(4)]
+    # 0 = not installed, 1 = present, 2 = installed but unloadable (import raises a plain ImportError: shared library missing)
+    return [[s, i, o] for s in (0, 1, 2) for i in (0, 1, 2) for o in range(4)]
 
 
 def run_child(sg, isc, order=0):
@@ -53,7 +54,7 @@ def run_partition(part, tier, seed):
     sg, isc, order = part
     for kind, c, v in run_child(sg, isc, order):
         case = [sg, isc, order, kind, c]
-        trivial = sg and isc and (kind != "factory" or (isinstance(c, list) and c[1].endswith("node1")))
+        trivial = sg == 1 and isc == 1 and (kind != "factory" or (isinstance(c, list) and c[1].endswith("node1")))
         acc.case(case, nontrivial=not trivial, key=repr(case))
         for k, w in v:
             acc.violation(k, w, case)
